@@ -153,6 +153,14 @@ static bool dcv_notify_one(struct dcv *c, struct ilock l, struct error_code *ec)
   ilock_dtor(&l);
   return nondet_bool();
 }
+/* any other member of detail::condition_variable that LOOKS at the waiter queue (size(l), empty(l), an accessor added later): the queue is
+ * protected by the internal lock data_->mtx_ -- a notifier that inspects it without that lock can miss a waiter that has released the
+ * user lock but not yet enqueued itself (the public notifiers serialise with wait() on data_->mtx_ for exactly this reason) */
+static bool dcv_query(struct dcv *c)
+{
+  VX_ASSERT(g_il_owns && g_blk->mtx_.held, "the waiter queue of the internal condition variable is inspected only with the internal lock held (else a notify can miss a waiter that is between 'user lock released' and 'enqueued')");
+  return nondet_bool();
+}
 static void dcv_notify_all(struct dcv *c, struct ilock l, struct error_code *ec)
 {
   VX_ASSERT(IL_OWNS(l), "internal notify_all called without the internal lock");
